@@ -41,6 +41,31 @@ Json gen(sim::Rng& rng, int tier)
     p["prefill"] = rng.chance(0.2) ? static_cast<int>(rng.range(1, 2)) : 0; // items pushed by the driver before the consumer starts
     p["consumer_delay_us"] = rng.chance(0.5) ? 0 : static_cast<int>(rng.below(300));
     gen_sched(rng, p, 300);
+    // a quarter of the runs churn: more producers and pushes, and threads are often descheduled for a while in the middle of a
+    // push or pop (at the yield points of mailbox.h by name, and at a random subset of all sites by hash bucket - which also
+    // reaches yield points that a change adds), so that whole push/pop cycles of the others fit into the gap
+    if (rng.chance(0.25)) {
+        Json pr2 = Json::array();
+        int np2 = static_cast<int>(rng.range(3, 4));
+        for (int i = 0; i < np2; ++i) {
+            Json pr = Json::object();
+            pr["pushes"] = static_cast<int>(rng.range(2, tier ? 6 : 4));
+            pr["start_delay_us"] = static_cast<int>(rng.below(100));
+            pr["gap_us"] = rng.chance(0.5) ? 0 : static_cast<int>(rng.below(100));
+            pr2.push(pr);
+        }
+        p["producers"] = pr2;
+        static const char* kSites[] = { "queue.push.exchange", "queue.push.link", "queue.pop.load", "sys.eventfd_write", "sys.write", "sys.read" };
+        Json hs = Json::array();
+        int n = static_cast<int>(rng.range(1, 2));
+        for (int i = 0; i < n; ++i) hs.push(std::string(kSites[rng.below(sizeof kSites / sizeof kSites[0])]));
+        p["sched"]["hot_sites"] = hs;
+        unsigned mask = (1u << rng.below(16)) | (1u << rng.below(16)) | (1u << rng.below(16));
+        p["sched"]["hot_buckets"] = static_cast<int>(mask);
+        p["sched"]["hot_pause_permille"] = static_cast<int>(100 + rng.below(500));
+        p["sched"]["pause_max_us"] = static_cast<int>(50 + rng.below(600));
+        p["sched"]["max_pauses"] = static_cast<int>(4 + rng.below(20));
+    }
     return p;
 }
 
